@@ -116,7 +116,7 @@ def _gen_worker(job):
     obs = []
     for ob in eng.obligations:
       obs.append(dict(label=ob.label, kind=ob.kind, func=target, clause=ob.clause, line=ob.line,
-                      path="".join("T" if b else "F" for b in ob.path), smt2=ob.smt2(),
+                      path="".join("T" if b else "F" for b in ob.path), smt2=ob.smt2(), smt2_alt=ob.smt2_alt(),
                       inputs={k: str(v) for k, v in ob.inputs.items()}, note=ob.note))
     return dict(target=target, result=r, obligations=obs, abstracted=sorted(eng.abstracted),
                 assumed=sorted(eng.assumed_contracts), theories=sorted(eng.used_theories),
@@ -282,7 +282,7 @@ def main(argv=None):
       gens += pool.map(_frame_module_worker, [(rel, prop) for rel in FRAME_MODULES.get(prop, [])], chunksize=1)
     all_obs = [o for g in gens for o in g["obligations"]]
     timeout = QUICK_TIMEOUT_MS if tier == "quick" else THOROUGH_TIMEOUT_MS
-    jobs = [(i, o["smt2"], timeout, tier == "thorough") for i, o in enumerate(all_obs)]
+    jobs = [(i, o["smt2"], timeout, tier == "thorough", o.get("smt2_alt")) for i, o in enumerate(all_obs)]
     results = [None] * len(jobs)
     t_solve0 = time.time()
     for r in pool.imap_unordered(backend._work, jobs, chunksize=1):
